@@ -70,7 +70,7 @@ func init() {
 				{Kind: "mappartial", TotalRows: -1, Relay: "reenc", NoUndo: true, DetMaps: r.Bool()},
 				{Kind: "mappartial", TotalRows: []int{0, 0, 1 + r.Intn(8)}[r.Intn(3)], Relay: "reenc", NoUndo: true}}
 		},
-		MaxBlocks: 30, MaxAdds: 48, PReorg: 3, NetFaults: true})
+		MaxBlocks: 30, MaxAdds: 48, PReorg: 3, PCacheOps: 10, NetFaults: true})
 	reg(&Profile{Name: "c06", PForged: 10, Property: "C06", Oracles: []string{"roots", "lookup", "prove", "provable-set", "partial"},
 		Nodes: func(r *Rng) []NodeCfg {
 			return []NodeCfg{{Kind: "pollard"}, {Kind: "mapfull", TotalRows: -1, DetMaps: r.Bool()}, {Kind: "mapfull", TotalRows: 0},
